@@ -571,13 +571,17 @@ def in_range_strategy(
     :returns: ``hypothesis`` strategy
     """
     if strategy is None:
-        return pandas_dtype_strategy(
+        strategy = pandas_dtype_strategy(
             pandera_dtype,
             min_value=min_value,
             max_value=max_value,
             exclude_min=not include_min,
             exclude_max=not include_max,
         )
+        # only float strategies understand exclude_min/exclude_max: other
+        # data types need to filter out the excluded bounds.
+        if is_float(pandera_dtype) or (include_min and include_max):
+            return strategy
     min_op = operator.le if include_min else operator.lt
     max_op = operator.ge if include_max else operator.gt
     return strategy.filter(partial(min_op, min_value)).filter(
